@@ -18,6 +18,11 @@ pub struct RunCfg {
 	pub max_seconds: f64,
 	/// signatures of known findings: counted, one example kept, never stop the run early
 	pub known: Vec<String>,
+	pub miri: bool,
+	/// running under an external leak detector: do not leak on purpose
+	pub leakcheck: bool,
+	/// (k, n): only items with index % n == k
+	pub shard: (u64, u64),
 }
 
 #[derive(Clone, Debug)]
@@ -161,6 +166,9 @@ pub fn par_run(
 							let i = next.fetch_add(1, Ordering::Relaxed);
 							if i >= items {
 								break;
+							}
+							if i % cfg.shard.1 != cfg.shard.0 {
+								continue;
 							}
 							i
 						}
